@@ -584,33 +584,22 @@ def roundtrip_suite(rnd, N, focus=None):
                "unbounded/boxed targets; tolerance 1e-7*(1+|state|) ; non-trivial = trajectory with >= 2 sub-steps; a failure is a "
                "counterexample to reversibility (not a correspondence disagreement)")
     findings = []
-    for _ in range(N):
-        integ = rnd.choice(["lf", "3s", "4s"])
-        n = rnd.choice([1, 2, 3, 5, 8])
-        kind = rnd.choice(["normaldiag", "himmelblau", "uniform", "stdnormal"])
-        d = {"himmelblau": 2, "stdnormal": 1}.get(kind, rnd.choice([2, 3, 5]))
-        boxed = kind == "uniform" or rnd.random() < 0.5
-        mkind = rnd.choice(["unit", "diag", "full"])
-        dist, tstr, bstr, tdesc, lb, ub = make_target(rnd, kind, d, boxed)
-        mass, mstr, mdesc = make_mass(rnd, mkind, d)
-        h = rnd.choice([0.05, 0.1, 0.2])
-        q0 = inside_start(rnd, d, lb, ub)
-        p0 = np.array([[rnd.gauss(0, 1)] for _ in range(d)])
-        stim = {"integrator": integ, "n": n, "target": tdesc, "mass": mdesc, "h": h, "q0": q0.ravel().tolist(), "p0": p0.ravel().tolist()}
+
+    def one(dist, mass, mkind, mdesc, integ, n, h, q0, p0, lb, ub, stim):
         try:
             touched = []
             err, q1, p1 = roundtrip_error(dist, mass, integ, n, h, q0, p0, touched)
         except Exception as e:
             so.case(stim, nontrivial=False)
             so.count("raised")
-            continue
+            return
         so.case(stim, nontrivial=(n >= 2 or integ != "lf"))
         so.count(f"mass={mkind}{'+box' if (lb is not None or ub is not None) else ''}")
         if touched:
             so.count("trajectory reflected at a bound")
         if err is None:
             so.indeterminate += 1
-            continue
+            return
         tol = 1e-7 * (1.0 + float(np.max(np.abs(q0))) + float(np.max(np.abs(p0))))
         if err > tol:
             # was a bound touched? (needed to tell the known Full-mass-in-a-box finding from anything else)
@@ -624,6 +613,35 @@ def roundtrip_suite(rnd, N, focus=None):
             findings.append(Finding("C01", f"forward-flip-forward misses the start by {err:.3g} ({integ}, n={n}, mass={mkind}, boxed={has_box})",
                                     sig, {"oracle": "roundtrip", "stimulus": stim, "error": err, "tolerance": tol}))
             so.count("roundtrip-failed")
+
+    if focus is None:
+        # pinned: the witness of the negative theorem C01.full_mass_box_not_reversible on the real sampler
+        # (flat target inside a wide box, M^-1 = [[1,1/2],[1/2,1]], upper bound 1 on coordinate 0, one drift of length 1)
+        _, S, MM, D = _hm()
+        lb = np.array([[-100.0], [-100.0]])
+        ub = np.array([[1.0], [100.0]])
+        m = np.linalg.inv(np.array([[1.0, 0.5], [0.5, 1.0]]))
+        m = 0.5 * (m + m.T)
+        q0 = np.array([[0.9], [0.0]])
+        p0 = np.array([[1.0], [0.0]])
+        stim = {"integrator": "lf", "n": 1, "target": {"kind": "uniform", "d": 2, "lb": lb.ravel().tolist(), "ub": ub.ravel().tolist()},
+                "mass": {"mass": "full", "matrix": m.tolist()}, "h": 1.0, "q0": q0.ravel().tolist(), "p0": p0.ravel().tolist(), "pinned": "full_mass_box_not_reversible"}
+        one(D.Uniform(lb.copy(), ub.copy()), MM.Full(m.copy()), "full", stim["mass"], "lf", 1, 1.0, q0, p0, lb, ub, stim)
+        so.count("pinned witness of the negative theorem")
+    for _ in range(N):
+        integ = rnd.choice(["lf", "3s", "4s"])
+        n = rnd.choice([1, 2, 3, 5, 8])
+        kind = rnd.choice(["normaldiag", "himmelblau", "uniform", "stdnormal"])
+        d = {"himmelblau": 2, "stdnormal": 1}.get(kind, rnd.choice([2, 3, 5]))
+        boxed = kind == "uniform" or rnd.random() < 0.5
+        mkind = rnd.choice(["unit", "diag", "full"])
+        dist, tstr, bstr, tdesc, lb, ub = make_target(rnd, kind, d, boxed)
+        mass, mstr, mdesc = make_mass(rnd, mkind, d)
+        h = rnd.choice([0.05, 0.1, 0.2])
+        q0 = inside_start(rnd, d, lb, ub)
+        p0 = np.array([[rnd.gauss(0, 1)] for _ in range(d)])
+        stim = {"integrator": integ, "n": n, "target": tdesc, "mass": mdesc, "h": h, "q0": q0.ravel().tolist(), "p0": p0.ravel().tolist()}
+        one(dist, mass, mkind, mdesc, integ, n, h, q0, p0, lb, ub, stim)
     if not so.samples and so.evaluations:
         so.samples.append({"note": "round-trip cases", "count": so.evaluations})
     return so, findings
